@@ -32,15 +32,30 @@ import sys, json
 sys.path.insert(0, sys.argv[1]); sys.path.insert(0, sys.argv[2])
 from verif import impl
 texts = json.load(sys.stdin)
-print(json.dumps([impl.run_observed(t, w) for t, w in texts]))
+def one(t, w):
+    try:
+        return impl.run_observed(t, w)
+    except BaseException as ex:  # what the chart turned into cannot even be observed: that is its observation
+        return "UNOBSERVABLE " + type(ex).__name__ + ": " + str(ex)[:80]
+print(json.dumps([one(t, w) for t, w in texts]))
 """
+
+
+def observed(text, want=None):
+    try:
+        return impl.run_observed(text, want)
+    except BaseException as ex:  # noqa: BLE001
+        return "UNOBSERVABLE " + type(ex).__name__ + ": " + str(ex)[:80]
 
 
 def fresh(cases, flags=()):
     env = dict(os.environ)
     p = subprocess.run(["/venv/bin/python", *flags, "-c", FRESH, str(fw.REPO), str(fw.ROOT)], input=json.dumps(cases).encode(),
                        stdout=subprocess.PIPE, stderr=subprocess.PIPE, env=env, timeout=600)
-    return json.loads(p.stdout.decode().strip().splitlines()[-1])
+    try:
+        return json.loads(p.stdout.decode().strip().splitlines()[-1])
+    except Exception:  # noqa: BLE001  the interpreter died: every chart of the batch is unobservable there
+        return ["UNOBSERVABLE interpreter died: " + p.stderr.decode(errors="replace")[-120:].replace("\n", " ")] * len(cases)
 
 
 def corpus(ctx):
@@ -151,7 +166,7 @@ def slice(ctx: fw.Ctx) -> fw.Outcome:
         if hno == 0:
             order = list(range(len(cases))) + order  # everything once: > 128 keys per memo table inside one history
         for pos, k in enumerate(order):
-            x = impl.run_observed(*cases[k])
+            x = observed(*cases[k])
             out.case(fw.h([hno, pos, k]), pos >= 1, {"history": hno, "position": pos, "chart": k, "outcome": x[:30]} if pos == 5 else None,
                      tags=["history", x.split("|")[0][:14]])
             if x != ref[k]:
@@ -169,7 +184,7 @@ def slice(ctx: fw.Ctx) -> fw.Outcome:
             results = [None] * nthreads
 
             def work(i):
-                results[i] = [impl.run_observed(*cases[k]) for k in plan[i]]
+                results[i] = [observed(*cases[k]) for k in plan[i]]
             ths = [threading.Thread(target=work, args=(i,)) for i in range(nthreads)]
             for t in ths:
                 t.start()
@@ -185,7 +200,10 @@ def slice(ctx: fw.Ctx) -> fw.Outcome:
     finally:
         sys.setswitchinterval(old)
     paths(ctx, out, cases)
-    wrapped(ctx, out)
+    try:
+        wrapped(ctx, out)
+    except (AttributeError, ImportError, TypeError) as ex:  # the private functions are gone, renamed or no longer functools-wrapped: nothing to compare
+        out.notes.append(f"memoised-vs-unmemoised comparison skipped: {ex}")
     return out
 
 
@@ -276,7 +294,7 @@ def replay(ctx, data):
         cases = [(c[0], c[1]) for c in data["cases"]]
         last = None
         for c in cases:
-            last = impl.run_observed(*c)
+            last = observed(*c)
         ref = fresh([cases[-1]])[0]
         return last != ref, str(fw.first_diff(ref, last))
     return None, "re-run the slice"
